@@ -52,11 +52,11 @@ class Extractor:
         return self.rules
 
     # ---- function bodies
-    def input_arg(self, fn, a):
+    def input_arg(self, fn, a, cur="input"):
         """`input` | `input.trim_start()` | `input.trim_end()` | `input.trim()` -> (skip leading ws?, drop trailing ws?) or None"""
-        if A.path_str(a) == "input":
+        if A.path_str(a) == cur:
             return (False, False)
-        if A.kind(a) == "Expr::MethodCall" and not a["args"] and A.path_str(a["receiver"]) == "input":
+        if A.kind(a) == "Expr::MethodCall" and not a["args"] and A.path_str(a["receiver"]) == cur:
             m = a["method"]["sym"]
             if m == "trim_start":
                 return (True, False)
@@ -73,80 +73,280 @@ class Extractor:
         return N("wrap", pre=[ws] if how[0] else [], p=p, trim_end=how[1])
 
     def fn_body(self, fn):
-        stmts = fn.block["stmts"]
         if fn.name == "format_string":
             return self.format_string(fn)
-        if len(stmts) == 1 and A.kind(stmts[0]) == "Stmt::Expr":
-            e = stmts[0]["0"]
-            # COMB(..)(input)
-            if A.kind(e) == "Expr::Call" and len(e["args"]) == 1 and self.input_arg(fn, e["args"][0]) is not None:
-                return self.wrap(self.parser(fn, e["func"]), self.input_arg(fn, e["args"][0]))
-            self.lost(fn.name, "tail expression is not `<parser>(input)`")
-        # let-sequence
+        self.local = {}
+        cur = "input"
+        for a in fn.sig["inputs"]:
+            try:
+                cur = A.pat_idents(a["0"]["pat"])[0]
+            except Exception:
+                pass
+        self.inp0 = cur
+        return self.block_parser(fn, fn.block["stmts"], cur, {cur: 0})
+
+    def applied(self, fn, e, pos):
+        """`<parser>(<cursor>)` -> (parser node, cursor var) or None; the cursor may be `cur.trim_start()` etc."""
+        if A.kind(e) != "Expr::Call" or len(e["args"]) != 1:
+            return None
+        a = e["args"][0]
+        base = a["receiver"] if A.kind(a) == "Expr::MethodCall" and not a["args"] and a["method"]["sym"] in ("trim", "trim_start", "trim_end") else a
+        v = A.path_str(base)
+        if v is None or v not in pos:
+            return None
+        how = self.input_arg(fn, a, v)
+        if how is None:
+            return None
+        return self.wrap(self.parser(fn, e["func"]), how), v
+
+    def is_parser_value(self, fn, e):
+        """a combinator call that builds a parser without applying it: `map(..)`, `alt(..)`, `check_char(..)` .."""
+        e = A.peel(e)
+        return A.kind(e) == "Expr::Call" and A.path_str(e["func"]) in COMBINATORS
+
+    def block_parser(self, fn, stmts, cur, pos):
+        """a statement list that threads a cursor through parsing steps and ends in the function's result.
+        `pos` maps each variable holding a rest-of-input to the number of steps taken when it was bound; a step must
+        start from the latest one (`cur`)."""
         steps = []
-        result = None
+        lens = {}  # local = A.len() - B.len()
+        pos = dict(pos)
         for st in stmts:
             k = A.kind(st)
+            last = st is stmts[-1]
             if k == "Stmt::Local":
+                if st.get("init") is None or st["init"].get("diverge") is not None:
+                    self.lost(fn.name, "let without initialiser / let-else in a grammar function")
                 names = A.pat_idents(st["pat"])
                 init = st["init"]["expr"]
                 req = False
                 if A.kind(init) == "Expr::Try":
                     req = True
                     init = init["expr"]
-                if names == ["input"] and not req and self.input_arg(fn, init) not in (None, (False, False)):
-                    # `let input = input.trim_start();`
-                    steps.append((None, self.wrap(N("seq", items=[]), self.input_arg(fn, init)), False))
+                # a named sub-parser
+                if not req and len(names) == 1 and self.is_parser_value(fn, init):
+                    self.local[names[0]] = self.parser(fn, init)
                     continue
-                if not (A.kind(init) == "Expr::Call" and len(init["args"]) == 1 and self.input_arg(fn, init["args"][0]) is not None):
+                # `let input = input.trim_start();`
+                if not req and len(names) == 1 and self.input_arg(fn, init, cur) not in (None, (False, False)):
+                    steps.append((None, self.wrap(N("seq", items=[]), self.input_arg(fn, init, cur)), False))
+                    pos[names[0]] = len(steps)
+                    cur = names[0]
+                    continue
+                # `let n = start.len() - rest.len();`
+                ln = self.len_diff(init)
+                if not req and len(names) == 1 and ln is not None:
+                    lens[names[0]] = ln
+                    continue
+                ap = self.applied(fn, init, pos)
+                if ap is None:
                     self.lost(fn.name, "let initialiser is not `<parser>(input)`")
-                p = self.wrap(self.parser(fn, init["func"]), self.input_arg(fn, init["args"][0]))
-                var = [n for n in names if n != "input"]
-                if "input" not in names:
-                    self.lost(fn.name, "a parsing step does not rebind `input`")
-                steps.append((var[0] if var else None, p, req))
+                p, frm = ap
+                if frm != cur:
+                    self.lost(fn.name, f"a parsing step starts from `{frm}`, not from the latest rest `{cur}`")
+                pat = st["pat"]
+                if A.kind(pat) == "Pat::Type":
+                    pat = pat["pat"]
+                if A.kind(pat) == "Pat::Tuple" and len(pat["elems"]) == 2:
+                    c = A.pat_idents(pat["elems"][0])
+                    v = A.pat_idents(pat["elems"][1])
+                    if len(c) != 1:
+                        self.lost(fn.name, "a parsing step does not bind the rest of the input")
+                    steps.append((v[0] if v else None, p, req))
+                    cur = c[0]
+                elif len(names) == 1:
+                    steps.append((None, p, req))
+                    cur = names[0]
+                else:
+                    self.lost(fn.name, "a parsing step does not bind the rest of the input")
+                pos[cur] = len(steps)
             elif k == "Stmt::Expr":
-                e = st["0"]
-                # Some((input, Struct { .. }))
-                if A.kind(e) == "Expr::Call" and A.path_str(e["func"]) == "Some":
-                    tup = e["args"][0]
-                    if A.kind(tup) == "Expr::Tuple" and len(tup["elems"]) == 2 and A.kind(tup["elems"][1]) == "Expr::Struct":
-                        sl = tup["elems"][1]
-                        result = (A.path_last(sl["path"]), {fv["member"]["0"]["sym"]: A.path_str(fv["expr"]) for fv in sl["fields"]})
-                        continue
-                # steps followed by a final `<parser>(input)`
-                if A.kind(e) == "Expr::Call" and len(e["args"]) == 1 and self.input_arg(fn, e["args"][0]) is not None and st is stmts[-1]:
-                    steps.append((None, self.wrap(self.parser(fn, e["func"]), self.input_arg(fn, e["args"][0])), True))
-                    return N("seq", items=[p for _, p, _ in steps])
-                self.lost(fn.name, "unexpected tail expression")
+                if not last:
+                    self.lost(fn.name, "expression statement before the tail")
+                return self.tail(fn, st["0"], steps, cur, pos, lens)
             else:
                 self.lost(fn.name, f"unexpected statement {k}")
-        if result is None:
-            self.lost(fn.name, "no result struct")
-        return N("fnseq", steps=steps, struct=result[0], fields=result[1])
+        self.lost(fn.name, "no result expression")
+
+    def len_diff(self, e):
+        e = A.peel(e)
+        if A.kind(e) == "Expr::Binary" and A.kind(e["op"]) == "BinOp::Sub":
+            sides = []
+            for x in (e["left"], e["right"]):
+                x = A.peel(x)
+                if A.kind(x) == "Expr::MethodCall" and x["method"]["sym"] == "len" and not x["args"] and A.path_str(x["receiver"]):
+                    sides.append(A.path_str(x["receiver"]))
+            if len(sides) == 2:
+                return tuple(sides)
+        return None
+
+    def tail(self, fn, e, steps, cur, pos, lens):
+        e = A.peel(e)
+        k = A.kind(e)
+        if k == "Expr::Block" and e.get("label") is None:
+            return self.seq_of(steps, self.block_parser(fn, e["block"]["stmts"], cur, pos))
+        # Some((rest, VALUE))
+        if k == "Expr::Call" and A.path_str(e["func"]) == "Some" and A.kind(e["args"][0]) == "Expr::Tuple" and len(e["args"][0]["elems"]) == 2:
+            rest, val = e["args"][0]["elems"]
+            if A.path_str(rest) != cur:
+                self.lost(fn.name, f"the result does not return the latest rest `{cur}`")
+            while A.kind(val) in ("Expr::Paren", "Expr::Group"):
+                val = val["expr"]
+            if A.kind(val) == "Expr::Struct":
+                fields = {}
+                for fv in val["fields"]:
+                    fields[fv["member"]["0"]["sym"]] = A.path_str(fv["expr"])
+                return N("fnseq", steps=steps, struct=A.path_last(val["path"]), fields=fields)
+            if A.kind(val) == "Expr::Reference" and A.kind(val["expr"]) == "Expr::Index":
+                ix = val["expr"]
+                rng = A.peel(ix["index"])
+                base = A.path_str(ix["expr"])
+                if A.kind(rng) == "Expr::Range" and rng.get("start") is None and rng.get("end") is not None:
+                    end = A.peel(rng["end"])
+                    ld = lens.get(A.path_str(end)) if A.path_str(end) else self.len_diff(end)
+                    if ld is not None and ld[0] == base and pos.get(base) == 0 and ld[1] == cur:
+                        return N("fnseq", steps=steps, struct=None, fields={}, ret=("capture",))
+                self.lost(fn.name, "captured slice is not `&input[..input.len() - rest.len()]`")
+            return N("fnseq", steps=steps, struct=None, fields={}, ret=self.ret_value(fn, val, [v for v, _, _ in steps if v]))
+        # <parser>(rest)
+        ap = self.applied(fn, e, pos)
+        if ap is not None:
+            p, frm = ap
+            if frm != cur:
+                self.lost(fn.name, f"the final parser starts from `{frm}`, not from the latest rest `{cur}`")
+            return self.seq_of(steps, p)
+        # match <parser>(rest) { Some(x) => .., None => Some((rest, DEFAULT)) }   (also if-let/else)
+        e2 = A.norm_ast(e) if k == "Expr::If" else e
+        if A.kind(e2) == "Expr::Match":
+            ap = self.applied(fn, e2["expr"], pos)
+            if ap is not None and ap[1] == cur and len(e2["arms"]) == 2:
+                some = [a for a in e2["arms"] if A.render_pat(a["pat"]).startswith("Some")]
+                none = [a for a in e2["arms"] if A.render_pat(a["pat"]) in ("None", "_")]
+                if len(some) == 1 and len(none) == 1 and some[0].get("guard") is None and none[0].get("guard") is None:
+                    names = A.pat_idents(some[0]["pat"])
+                    if not names:
+                        self.lost(fn.name, "the Some arm does not bind the rest")
+                    sub_cur = names[0]
+                    pos2 = dict(pos)
+                    pos2[sub_cur] = len(steps) + 1
+                    body = some[0]["body"]
+                    body_stmts = body["block"]["stmts"] if A.kind(body) == "Expr::Block" else [{"_": "Stmt::Expr", "0": body}]
+                    q = self.block_parser(fn, body_stmts, sub_cur, pos2)
+                    if len(names) > 1:
+                        self.lost(fn.name, "committed continuation uses the value of the condition parser")
+                    d = A.peel(none[0]["body"])
+                    if A.kind(d) == "Expr::Block" and len(d["block"]["stmts"]) == 1 and A.kind(d["block"]["stmts"][0]) == "Stmt::Expr":
+                        d = A.peel(d["block"]["stmts"][0]["0"])
+                    if not (A.kind(d) == "Expr::Call" and A.path_str(d["func"]) == "Some" and A.kind(d["args"][0]) == "Expr::Tuple" and A.path_str(d["args"][0]["elems"][0]) == cur):
+                        self.lost(fn.name, "the None arm does not return the untouched input")
+                    dv = self.value_expr(fn, d["args"][0]["elems"][1])
+                    return self.seq_of(steps, N("commit", p=ap[0], q=q, default=dv))
+        self.lost(fn.name, "unexpected tail expression")
+
+    def seq_of(self, steps, final):
+        if not steps:
+            return final
+        if any(v for v, _, _ in steps):
+            # values of earlier steps are not part of the result of a plain sequence
+            pass
+        return N("seq", items=[p for _, p, _ in steps] + [final], last_value=True)
+
+    def ret_value(self, fn, v, vars_):
+        k = A.kind(v)
+        if k == "Expr::Path":
+            nm = A.path_str(v)
+            if nm == "None":
+                return ("none",)
+            if nm in vars_:
+                return ("var", nm)
+            if "::" in nm or nm[0].isupper():
+                return ("label", nm)
+        if k == "Expr::Call" and A.path_str(v["func"]) == "Some":
+            return self.ret_value(fn, v["args"][0], vars_)
+        if k == "Expr::Tuple":
+            return ("tuple", [self.ret_value(fn, x, vars_) for x in v["elems"]])
+        self.lost(fn.name, f"result value not understood ({k})")
 
     def format_string(self, fn):
-        """text? (maybe_format | text)* EOF  -- recognised by shape"""
-        src = A.expr_text(fn.file, fn.block)
-        calls = [A.path_str(c["func"]) for c, _ in A.calls(fn.block)]
-        mcs = [m["method"]["sym"] for m, _ in A.method_calls(fn.block)]
-        # first statement: optional_result(text)(input)
-        st0 = fn.block["stmts"][0]
-        if A.kind(st0) != "Stmt::Local":
+        """text? (maybe_format | text)* EOF: a first step, a loop that applies one parser until it fails and advances
+        the cursor on every success, and a final emptiness test"""
+        self.local = {}
+        stmts = fn.block["stmts"]
+        st0 = stmts[0] if stmts else None
+        if A.kind(st0) != "Stmt::Local" or st0.get("init") is None:
             self.lost("format_string", "first statement")
-        p0 = self.parser(fn, st0["init"]["expr"]["func"])
-        # the scan loop: alt([maybe_format, map(text, ..)])
-        alts = None
-        for c, ps in A.calls(fn.block, lambda p: p == "alt"):
-            alts = self.parser(fn, c)
-        if alts is None or "scan" not in mcs or "is_empty" not in mcs or "then_some" not in mcs:
-            self.lost("format_string", "repeat/scan loop or final `input.is_empty()` test not found")
-        # the loop body must propagate failure (`?`) and advance `**input = curr`
-        has_try = any(True for _ in A.find(fn.block, "Expr::Try"))
-        assign = any(A.kind(x) == "Expr::Assign" for x, _ in A.walk(fn.block))
-        if not has_try or not assign:
-            self.lost("format_string", "scan closure does not stop on failure / does not advance the input")
-        return N("seq", items=[p0, N("star", p=alts, collect=True), N("eof")], name="format_string")
+        init0 = st0["init"]["expr"]
+        if A.kind(init0) != "Expr::Call" or len(init0["args"]) != 1:
+            self.lost("format_string", "first statement is not `<parser>(input)`")
+        p0 = self.parser(fn, init0["func"])
+        cur = A.pat_idents(st0["pat"])[0]
+        rest = {"_": "Block", "stmts": stmts[1:]}
+        for st in stmts[1:]:
+            if A.kind(st) == "Stmt::Local" and st.get("init") is not None and len(A.pat_idents(st["pat"])) == 1 and self.is_parser_value(fn, st["init"]["expr"]):
+                self.local[A.pat_idents(st["pat"])[0]] = self.parser(fn, st["init"]["expr"])
+        # the applied loop parser: `<parser>(cursor)`
+        applied = []
+        for c, ps in A.find(rest, "Expr::Call"):
+            if len(c["args"]) == 1 and (self.is_parser_value(fn, c["func"]) or A.path_str(c["func"]) in self.local):
+                applied.append((c, ps))
+        if len(applied) != 1:
+            self.lost("format_string", f"expected one applied parser in the loop, found {len(applied)}")
+        call, ps = applied[0]
+        alts = self.parser(fn, call["func"])
+        mcs = [m["method"]["sym"] for m, _ in A.method_calls(rest)]
+        assigns = [x for x, _ in A.walk(rest) if A.kind(x) == "Expr::Assign"]
+        form = None
+        parent = ps[-1] if ps else None
+        if "scan" in mcs:
+            # iter::repeat(()).scan(&mut input, |input, _| { let (curr, f) = P(input)?; **input = curr; Some(f) })
+            if A.kind(parent) == "Expr::Try" and assigns:
+                form = "scan"
+        elif any(A.kind(x) == "Expr::While" for x in ps):
+            w = [x for x in ps if A.kind(x) == "Expr::While"][-1]
+            cond = w["cond"]
+            if A.kind(cond) == "Expr::Let" and cond["expr"] is call and A.render_pat(cond["pat"]).startswith("Some"):
+                nxt = A.pat_idents(cond["pat"])[0]
+                ok = any(A.path_str(a["left"]) == cur and A.path_str(a["right"]) == nxt for a in assigns)
+                exits = [x for x, _ in A.walk(w["body"]) if A.kind(x) in ("Expr::Break", "Expr::Continue", "Expr::Return", "Expr::Try")]
+                if ok and not exits and A.path_str(call["args"][0]) == cur:
+                    form = "while-let"
+        elif any(A.kind(x) == "Expr::Loop" for x in ps):
+            lp = [x for x in ps if A.kind(x) == "Expr::Loop"][-1]
+            breaks = [(x, xp) for x, xp in A.walk(lp["body"]) if A.kind(x) in ("Expr::Break", "Expr::Continue", "Expr::Return", "Expr::Try")]
+            nxt = None
+            if len(breaks) == 1 and A.kind(breaks[0][0]) == "Expr::Break":
+                bps = breaks[0][1]
+                # let Some((curr, f)) = P(input) else { break };
+                if A.kind(parent) in ("LocalInit", None) or True:
+                    for st in lp["body"]["stmts"]:
+                        if A.kind(st) == "Stmt::Local" and st.get("init") is not None and st["init"]["expr"] is call and st["init"].get("diverge") is not None and A.render_pat(st["pat"]).startswith("Some"):
+                            if any(x is breaks[0][0] for x, _ in A.walk(st["init"]["diverge"])):
+                                nxt = A.pat_idents(st["pat"])[0]
+                        if A.kind(st) == "Stmt::Expr" and A.kind(st["0"]) == "Expr::Match" and st["0"]["expr"] is call:
+                            for arm in st["0"]["arms"]:
+                                if A.render_pat(arm["pat"]) in ("None", "_") and any(x is breaks[0][0] for x, _ in A.walk(arm["body"])):
+                                    some = [a for a in st["0"]["arms"] if A.render_pat(a["pat"]).startswith("Some")]
+                                    if len(some) == 1 and len(st["0"]["arms"]) == 2:
+                                        nxt = A.pat_idents(some[0]["pat"])[0]
+            if nxt and any(A.path_str(a["left"]) == cur and A.path_str(a["right"]) == nxt for a in assigns) and A.path_str(call["args"][0]) == cur:
+                form = "loop"
+        if form is None:
+            self.lost("format_string", "loop that repeats the parser until it fails and advances the input not recognised")
+        # final `input.is_empty()` decides success
+        empt = [m for m, _ in A.method_calls(rest, "is_empty") if A.path_str(m["receiver"]) == cur]
+        last = stmts[-1]
+        ok_final = False
+        if empt and A.kind(last) == "Stmt::Expr":
+            e = A.peel(last["0"])
+            if A.kind(e) == "Expr::MethodCall" and e["method"]["sym"] in ("then_some", "then") and e["receiver"] is empt[-1]:
+                ok_final = True
+            if A.kind(e) == "Expr::If" and A.peel(e["cond"]) is empt[-1] and e.get("else_branch") is not None:
+                tb = A.render(e["then_branch"]) if "then_branch" in e else ""
+                eb = A.render(e["else_branch"])
+                ok_final = "Some" in tb and "None" in eb and "Some" not in eb
+        if not ok_final:
+            self.lost("format_string", "the final `input.is_empty()` test does not decide the result")
+        return N("seq", items=[p0, N("star", p=alts, collect=True), N("eof")], name="format_string", form=form)
 
     # ---- parser expressions
     def parser(self, fn, e):
@@ -155,6 +355,8 @@ class Extractor:
             return self.parser(fn, e["expr"])
         if k == "Expr::Path":
             nm = A.path_str(e)
+            if nm in getattr(self, "local", {}):
+                return self.local[nm]
             if nm in self.grammar_fns:
                 return N("ref", name=nm)
             if nm in LEAF_FNS:
@@ -430,6 +632,8 @@ class Interp:
                     return None
                 j, v = r
                 vals.append(v)
+            if getattr(n, "last_value", False):
+                return (j, vals[-1])
             return (j, vals)
         if k == "alt":
             for it in n.items:
@@ -507,8 +711,24 @@ class Interp:
                 j = r[0]
                 if var:
                     loc[var] = r[1]
+            if n.struct is None:
+                return (j, self.ret_val(n.ret, loc, s[i:j]))
             return (j, (n.struct, {f: loc.get(v) for f, v in n.fields.items()}))
         raise ValueError(k)
+
+    def ret_val(self, ret, loc, text):
+        k = ret[0]
+        if k == "capture":
+            return text
+        if k == "var":
+            return loc.get(ret[1])
+        if k == "none":
+            return None
+        if k == "label":
+            return (ret[1], None)
+        if k == "tuple":
+            return tuple(self.ret_val(x, loc, text) for x in ret[1])
+        raise ValueError(ret)
 
     def _subst(self, v, bound):
         # ('pass' values inside tuples refer to the last binding)
